@@ -678,6 +678,7 @@ def deprecated_handling(c, chk, model):
     chk.rule('R1.7', 'before the parser forgets the option it just completed (next name, closing brace, end of input) it has tested it for CFGF_DEPRECATED')
     n = 0
     bad = None
+    need_callee_test = False
     for tokname, tok in sorted(pm.TOKENS.items()):
         if tokname == 'ERR':
             continue
@@ -689,11 +690,24 @@ def deprecated_handling(c, chk, model):
             if tr.kind not in ('next', 'ret') or (tr.kind == 'ret' and tr.ret == 1):
                 continue          # a failed parse: what was read is discarded anyway
             n += 1
-            examined = any(sym.mentions(cn, lambda v: v == ('p', 'opt')) for cn, t, _ in tr.assume) or \
-                any(e.name == 'cfg_handle_deprecated' and ('p', 'opt') in e.args for e in tr.calls())
+            tested = any(sym.mentions(cn, lambda v: v == ('p', 'opt')) for cn, t, _ in tr.assume)
+            delegated = any(e.name == 'cfg_handle_deprecated' and ('p', 'opt') in e.args for e in tr.calls())
+            if delegated and not tested:
+                need_callee_test = True
+            examined = tested or delegated
             kept = tr.kind == 'next' and tr.next_state == 0 and tr.next.get('opt') == ('p', 'opt')
             if not examined and not kept:
                 bad = bad or (tokname, tr)
+    if need_callee_test and not bad:
+        # the parser hands every completed option to cfg_handle_deprecated() untested: then that function must do the
+        # testing - nothing is reported or dropped unless the option is non-NULL and carries CFGF_DEPRECATED
+        hd = c.need('cfg_handle_deprecated')
+        exh = sym.Explorer(c.modules, max_visits=2, mod_sets=c.mod_sets)
+        for p in exh.explore(hd):
+            acts = [e for e in p.events if e.kind == 'call' and e.name in ('cfg_error', 'cfg_free_value')]
+            if acts and not any(pm.describe_cond(cn) == 'opt->flags has DEPRECATED' and t for cn, t, _ in p.assume):
+                chk.fail('R1.7', 'deprecated-untested', c.where(acts[0].ins), 'cfg_handle_deprecated() is called for every completed option but reports / drops without testing CFGF_DEPRECATED')
+                return
     if bad:
         tokname, tr = bad
         chk.fail('R1.7', 'deprecated-unhandled:%s' % tokname, c.where(model.fn),
